@@ -38,9 +38,11 @@ Definition gok (w : linter) (q : rquirks) (g : gctx) (k : kind) (cs : list node)
   (negb (g_macro g) || negb (risky w k)) &&
   match k with
   | KFn pre _ _ =>
-    Bool.eqb (sib_walk q (attr_hit test_attr_needle attr_is_test_fn (q_test_attr_substring q)) (rev pre)) (fn_is_test pre)
+    Bool.eqb (sib_walk (run_types q test_attr_run_types) test_attr_sibling_type
+                      (attr_hit test_attr_needle attr_is_test_fn (q_test_attr_substring q)) (rev pre)) (fn_is_test pre)
   | KMod pre =>
-    Bool.eqb (sib_walk q (attr_hit cfg_attr_needle attr_is_cfg_test (q_cfg_test_literal q)) (rev pre)) (mod_is_test pre)
+    Bool.eqb (sib_walk (run_types q cfg_attr_run_types) cfg_attr_sibling_type
+                      (attr_hit cfg_attr_needle attr_is_cfg_test (q_cfg_test_literal q)) (rev pre)) (mod_is_test pre)
   | KMethod sl sc ml name =>
     match w with
     | LUnwrap => negb (q_chain_start_line q) || (sl =? ml)
